@@ -20,11 +20,11 @@ const (
 )
 
 type Seg struct {
-	Type                  uint32
-	Flags                 uint32
-	Vaddr, Filesz, Memsz  uint64
-	Data                  []byte // Filesz bytes are taken from Data (padded with 0xEE filler beyond)
-	off                   uint64
+	Type                 uint32
+	Flags                uint32
+	Vaddr, Filesz, Memsz uint64
+	Data                 []byte // Filesz bytes are taken from Data (padded with 0xEE filler beyond)
+	off                  uint64
 }
 
 type Sec struct {
@@ -222,11 +222,11 @@ func overlaps(bs []Block) bool {
 
 // Expect describes what a faithful loader produces.
 type Expect struct {
-	RejectType    bool // e_type none/rel/core (and everything without the "executable" bit)
-	MemReject     bool // memsz<filesz, overlapping segments, or no loadable segment
-	CodeReject    bool // overlapping code sections or none
-	Mem, Code     []Block
-	MemTooBig     bool // some segment needs more memory than the model materialises
+	RejectType bool // e_type none/rel/core (and everything without the "executable" bit)
+	MemReject  bool // memsz<filesz, overlapping segments, or no loadable segment
+	CodeReject bool // overlapping code sections or none
+	Mem, Code  []Block
+	MemTooBig  bool // some segment needs more memory than the model materialises
 }
 
 // Model computes the expectation (for 32-bit files the fields are truncated the way
